@@ -310,4 +310,15 @@ extern GetExprBridge
 
 extern (*ExprBridge).EvaluateExpression
   props C04 C20 C05
+
+// ---- accumulators reached through the aggregator interface (frame-only assumed contracts)
+extern iface.LegacyAggregatorFunction.Add
+  props C17
+  modifies pkgheaps(functions)
+
+extern iface.LegacyAggregatorFunction.Result
+  props C17
+
+extern iface.LegacyAggregatorFunction.New
+  props C17
 @*/
